@@ -328,7 +328,7 @@ def check_islands(lib, m, d, rows, what):
   for f_i, f_e in (('iefc_type', 'efc_type'), ('iefc_id', 'efc_id'), ('iefc_frictionloss', 'efc_frictionloss'),
                    ('iefc_D', 'efc_D'), ('iefc_R', 'efc_R')):
     a, b = np.asarray(getattr(d, f_i)), np.asarray(getattr(d, f_e))[idx]
-    if not np.array_equal(a, b):
+    if a.tobytes() != np.ascontiguousarray(b).tobytes():
       raise Violation('%s: %s is not %s gathered through map_iefc2efc' % (what, f_i, f_e), bucket='model-iefc-gather')
   return label, k
 
@@ -342,6 +342,9 @@ def check_model(ck, lib, gm, seed, nsteps):
     return
   if m.nv == 0 or m.ntree == 0:
     ck.discard('no-dof')
+    return
+  if not np.all(np.isfinite(m.dof_invweight0)):
+    ck.discard('singular-inertia-at-qpos0')     # e.g. hinge + ball at the same point: NaN constraint weights, not an island question
     return
   m.opt.jacobian = E.mjJAC_SPARSE
   m.opt.disableflags = int(m.opt.disableflags) & ~int(E.mjDSBL_ISLAND)
